@@ -7,11 +7,13 @@ from props import extlib as X
 ID = 'C08'
 COQ_PROPS = 'Props/C08.v'
 THEOREMS = ['C08_value', 'C08_const', 'C08_noindex', 'C08_bounds', 'C08_mismatch', 'C08_absent', 'C08_total',
-            'C08_agrees_exact', 'C08_getitem']
+            'C08_agrees_exact', 'C08_getitem', 'C08_agrees_code_dir', 'C08_value_dir', 'C08_bounds_dir', 'C08_mismatch_dir',
+            'C08_flip_refuted', 'C08_rowonly_refuted']
 ALLOWED_AXIOMS = []
 RULE = ('random valid nondegenerate extensions (3-5 D, any slice axis or none, canonical and widened classes, list / nested / '
         'None values) x image perturbations {exact, other in-plane extents, T+-1, V+-1, trailing dims dropped / added, S+-1, '
-        'slice axis relabelled, dim_info removed, slice row flipped / permuted / rescaled, 3x3 part transposed, row moved '
+        'slice axis relabelled, dim_info removed, slice row flipped / permuted / rescaled, 3x3 part transposed, slice axis properly '
+        'flipped (column negated, origin moved), in-plane axis flipped, slice / in-plane columns exchanged, row moved '
         'within / beyond the tolerance}; affines mostly oblique (slice row != slice column) x keys (every key and a missing one) x indices {in range, one coordinate = extent, negative, too short, '
         'too long, None}; non-trivial = the key is in a varying class')
 TRUSTED_BASE = ['hand-written Gallina model coq/Ext/Model.v of get_meta / meta_valid / __getitem__ (tied by Ext/Corr.v check_lookup)',
@@ -19,7 +21,12 @@ TRUSTED_BASE = ['hand-written Gallina model coq/Ext/Model.v of get_meta / meta_v
                 'header.get_dim_info()[2], header.get_n_slices() = shape[slice_dim], img.affine are read',
                 'np.allclose(a, b, atol=1e-6) modelled exactly in Q as |a-b| <= atol + 1e-5*|b| (generators stay a factor >= 8 '
                 'away from the boundary, geometry is dyadic)']
-ASSUMPTIONS = ['the extension is valid and nondegenerate (NiftiWrapper.__init__ enforces check_valid); in lookup_hist the in-place '
+ASSUMPTIONS = ['TWO matching predicates: agrees_dir (the SPEC: slice DIRECTIONS = affine columns agree) and agrees_code (what the code '
+               'tests: affine ROWS).  C08_value / C08_bounds / C08_mismatch are about agrees_code; they hold for agrees_dir only on '
+               'slice_sym (slice row = slice column in both affines, e.g. axial storage / symmetric 3x3 part): C08_*_dir.  Off that '
+               'domain the property fails both ways (open finding N13: C08_flip_refuted, C08_rowonly_refuted); the oracle is written '
+               'against DIRECTIONS and reports those inputs with signature lookup/slice-direction-row-vs-column',
+               'the extension is valid and nondegenerate (NiftiWrapper.__init__ enforces check_valid); in lookup_hist the in-place '
                'edits keep it valid (setters of affine, slice_dim between axes of equal extent, in-plane shape; replace_extension)',
                'index entries are Python ints; image is 3-5 D with slice dim_info in {None,0,1,2}',
                'Python == on values coincides with structural equality']
@@ -27,8 +34,7 @@ ASSUMPTIONS = ['the extension is valid and nondegenerate (NiftiWrapper.__init__ 
 DEFAULT = {'dflt': [1]}          # a value no generator emits
 
 
-def agrees(E, img, c):
-    """Declarative 'the image still matches the extension for class c' (written from the property text)."""
+def _agrees(E, img, c, vec):
     if c == 'GConst':
         return True
     ms, is_ = E['shape'], img['shape']
@@ -40,8 +46,8 @@ def agrees(E, img, c):
         return False
     if ms[E['sdim']] != is_[img['slice']]:
         return False
-    a = [Fraction(x) for x in img['aff'][img['slice']][:3]]
-    b = [Fraction(x) for x in E['aff'][E['sdim']][:3]]
+    a = [Fraction(x) for x in vec(img['aff'], img['slice'])]
+    b = [Fraction(x) for x in vec(E['aff'], E['sdim'])]
     if not X.allclose(a, b, atol=Fraction(1, 1000000)):
         return False
     if c == 'TSlices':
@@ -51,7 +57,21 @@ def agrees(E, img, c):
     return ms[3:] == is_[3:]
 
 
-def expected(case):
+def agrees_dir(E, img, c):
+    """THE SPEC (from the property text): the image still matches the extension for class c -- trailing dims, slice
+    count, slice axis present, and the slice DIRECTIONS agree (column [:3, slice dim] of the two affines)."""
+    return _agrees(E, img, c, lambda a, d: [a[r][d] for r in range(3)])
+
+
+def agrees_code(E, img, c):
+    """What the code tests (the ROW affine[slice dim, :3]); only used to recognise the open finding N13."""
+    return _agrees(E, img, c, lambda a, d: a[d][:3])
+
+
+agrees = agrees_dir
+
+
+def expected(case, agrees=agrees_dir):
     """What the property demands of get_meta: ('val', v) or ('err', 'EIndex')."""
     E, img, k, idx = case['ext'], case['img'], case['key'], case['index']
     ent = X.entry_map(E).get(k)
@@ -78,7 +98,8 @@ def expected(case):
 
 
 PERTS = ['exact'] * 6 + ['inplane', 'T+1', 'T-1', 'V+1', 'V-1', 'drop_trailing', 'add_trailing', 'S+1', 'S-1', 'relabel',
-                          'no_dim_info', 'flip_row', 'perm_rows', 'rescale_row', 'tiny', 'small', 'transpose']
+                          'no_dim_info', 'flip_row', 'perm_rows', 'rescale_row', 'tiny', 'small', 'transpose',
+                          'flip_slice_axis', 'flip_slice_axis', 'flip_inplane_axis', 'flip_inplane_axis', 'swap_axes_cols']
 
 
 def perturb(rng, E, pert):
@@ -109,6 +130,26 @@ def perturb(rng, E, pert):
         img['aff'][sd], img['aff'][o] = img['aff'][o], img['aff'][sd]
     elif pert == 'rescale_row' and sd is not None:
         img['aff'][sd] = [2.0 * x for x in img['aff'][sd][:3]] + img['aff'][sd][3:]
+    elif pert == 'flip_slice_axis' and sd is not None:
+        # a PROPER flip of the slice axis: direction (column) negated, origin moved to the other end
+        a = img['aff']
+        n = sh[sd]
+        for r in range(3):
+            a[r][3] += a[r][sd] * (n - 1)
+            a[r][sd] = -a[r][sd]
+    elif pert == 'flip_inplane_axis' and sd is not None:
+        # an in-plane axis is flipped: the slice direction does not change
+        a = img['aff']
+        ax = rng.choice([d for d in range(3) if d != sd])
+        for r in range(3):
+            a[r][3] += a[r][ax] * (sh[ax] - 1)
+            a[r][ax] = -a[r][ax]
+    elif pert == 'swap_axes_cols' and sd is not None:
+        # the slice axis now runs along what was an in-plane direction (columns exchanged)
+        a = img['aff']
+        ax = rng.choice([d for d in range(3) if d != sd])
+        for r in range(3):
+            a[r][sd], a[r][ax] = a[r][ax], a[r][sd]
     elif pert == 'transpose':
         a = img['aff']
         img['aff'] = [[a[j][i] for j in range(3)] + [a[i][3]] for i in range(3)] + [a[3]]
@@ -142,7 +183,7 @@ def gen_cases(rng, tier):
     cases = []
     for _ in range(n_ext):
         E = X.gen_ext(rng, tier, nkeys=rng.randint(1, 4), widen=rng.choice([0.0, 0.4]),
-                      aff=X.gen_affine(rng, rng.choice(['dense', 'dense', 'perm', 'diag'])),
+                      aff=X.gen_affine(rng, rng.choice(['dense', 'dense', 'perm', 'perm', 'diag'])),
                       patterns=X.BASE_PATTERNS[1:] if rng.random() < 0.8 else None)
         if len(E['shape']) >= 4 and rng.random() < 0.6:
             # make sure per-volume / per-(slice,time) layouts are frequent: they are where index arithmetic matters
@@ -178,19 +219,37 @@ def coq_case(case, obs):
     return X.lookup_case_to_coq(case, obs)
 
 
-def oracle(case, obs):
-    if 'crash' in obs:
-        return 'harness: %s' % obs.get('msg')
-    g = obs['get']
-    kind, val = expected(case)
+N13_TAG = '[row-vs-column]'
+N13_SIG = 'lookup/slice-direction-row-vs-column'
+
+
+def _get_mismatch(g, exp):
+    kind, val = exp
     if kind == 'val':
         if 'val' not in g:
             return 'get_meta raised %s (%s), expected %r' % (g.get('exc'), g.get('msg'), val)
         if g['val'] != val:
             return 'get_meta returned %r, expected %r' % (g['val'], val)
-    else:
-        if g.get('err') != val:
-            return 'get_meta gave %r, expected IndexError' % (g,)
+    elif g.get('err') != val:
+        return 'get_meta gave %r, expected IndexError' % (g,)
+    return None
+
+
+def oracle(case, obs):
+    if 'crash' in obs:
+        return 'harness: %s' % obs.get('msg')
+    g = obs['get']
+    m = _get_mismatch(g, expected(case))
+    if m:
+        ent0 = X.entry_map(case['ext']).get(case['key'])
+        c0 = ent0[0] if ent0 else None
+        if c0 and agrees_dir(case['ext'], case['img'], c0) != agrees_code(case['ext'], case['img'], c0) \
+                and _get_mismatch(g, expected(case, agrees_code)) is None:
+            # open finding N13: the code compares the affine ROW, the property speaks of the slice DIRECTION (column)
+            return N13_TAG + ' slice directions %s but the code (row test) %s: %s' % (
+                'agree' if agrees_dir(case['ext'], case['img'], c0) else 'differ',
+                'answers with the default' if agrees_dir(case['ext'], case['img'], c0) else 'returns a stored value', m)
+        return m
     for name, m in zip(X.CLASSES, obs['mv']):
         if not isinstance(m, bool):
             return 'meta_valid(%s) raised %s' % (name, m)
@@ -205,6 +264,8 @@ def oracle(case, obs):
 
 
 def signature(case, obs, msg):
+    if N13_TAG in msg:
+        return N13_SIG
     ent = X.entry_map(case['ext']).get(case['key'])
     return 'lookup/%s/%dD' % (ent[0] if ent else 'absent', len(case['img']['shape']))
 
@@ -309,7 +370,7 @@ def run_hist(case):
 
 def _aff_variants(rng, aff, sd):
     a = copy.deepcopy(aff)
-    kind = rng.choice(['flip', 'swap_rows', 'rescale', 'swap_cols', 'tiny', 'small'])
+    kind = rng.choice(['flip', 'swap_rows', 'rescale', 'swap_cols', 'tiny', 'small', 'flip_col', 'flip_col', 'flip_other_col'])
     r = sd if sd is not None else rng.randrange(3)
     if kind == 'flip':
         a[r] = [-x for x in a[r][:3]] + a[r][3:]
@@ -318,6 +379,11 @@ def _aff_variants(rng, aff, sd):
         a[r], a[o] = a[o], a[r]
     elif kind == 'rescale':
         a[r] = [2.0 * x for x in a[r][:3]] + a[r][3:]
+    elif kind in ('flip_col', 'flip_other_col'):
+        j = r if kind == 'flip_col' else rng.choice([d for d in range(3) if d != r])
+        for row in a[:3]:
+            row[3] += row[j]
+            row[j] = -row[j]
     elif kind == 'swap_cols':
         i, j = rng.sample(range(3), 2)
         for row in a[:3]:
@@ -332,7 +398,7 @@ def gen_hist_cases(rng, tier):
     cases = []
     for _ in range(n):
         E = X.gen_ext(rng, tier, nkeys=rng.randint(1, 3), widen=rng.choice([0.0, 0.4]),
-                      aff=X.gen_affine(rng, rng.choice(['dense', 'dense', 'perm'])), patterns=X.BASE_PATTERNS[1:])
+                      aff=X.gen_affine(rng, rng.choice(['dense', 'perm', 'perm'])), patterns=X.BASE_PATTERNS[1:])
         d = X.dims(E)
         ents = X.entry_map(E)
         for name, pat in (('PerVolume', 'vol'), ('PerSliceTime', 'slice_time'), ('PerSlice', 'slice'), ('Irregular', 'irregular')):
@@ -448,6 +514,8 @@ class LookupHist:
 
     @staticmethod
     def signature(case, obs, msg):
+        if N13_TAG in msg:
+            return N13_SIG
         return 'lookup-history/' + ('stateful' if 'fresh wrapper' in msg else 'wrong-answer')
 
     @staticmethod
